@@ -52,6 +52,18 @@ struct Env {
 }
 
 impl Env {
+    fn remove_leftovers(&self) {
+        if let Ok(rd) = std::fs::read_dir("/dev/shm") {
+            for e in rd.flatten() {
+                let n = e.file_name().to_string_lossy().to_string();
+                if n.starts_with(&self.prefix) && n.ends_with(".dynamic") {
+                    let _ = std::fs::remove_file(e.path());
+                }
+            }
+        }
+        let _ = std::fs::remove_dir_all(format!("{}/services", self.root));
+    }
+
     /// (static configs, dynamic configs, service tags) present right now
     fn listing(&self) -> String {
         if !self.is_ipc {
@@ -146,8 +158,10 @@ impl<'a, S: Service + 'static> Runner<'a, S> {
         let l = format!("O end = ok | ex={} ls={}", ex, ls);
         self.line(&l);
         if ex != 0 || (self.env.is_ipc && ls != "0,0,0") {
-            // something was left behind: do not let it pollute the next history
+            // something was left behind (it has been reported in the `end` line): do not let it
+            // pollute the next history
             self.name_ctr += 1;
+            self.env.remove_leftovers();
         }
     }
 }
